@@ -85,6 +85,50 @@ def rand_op(rng, kind, cap, fresh):
     return [name]
 
 
+# S-C12 (round 3): capacities with every residue structure an index shortcut could depend on (1, 2, powers of two
+# and their neighbours, even non-powers of two, odd composites, primes) -- `& (cap - 1)` for `% cap` is right for
+# powers of two only, a single conditional subtraction only for one wrap, ...
+CAPSET = (1, 2, 3, 4, 5, 6, 7, 8, 9, 10, 12, 15, 16, 17, 24, 31, 32, 33, 48, 63, 64, 65, 96, 100, 127, 128, 129,
+          255, 256, 257)
+
+
+def capwrap_cases(fresh):
+    """deterministic: every capacity of CAPSET x every fill level (corner levels 0,1,2,3,cap/2,cap-2,cap-1,cap above
+    capacity 10) held while 2 cap + 3 items pass through, so start and start + len wrap at least twice; reads at the
+    corner indices on the way.  Bounded: push+pop below capacity (the not-full path), evicting pushes at capacity.
+    Fixed: 2 cap + 3 pushes from every (corner) `first`, reads at indices up to 2 cap (they wrap)."""
+    def corners(cap, top):
+        return list(range(top + 1)) if cap <= 10 else sorted(v for v in {0, 1, 2, 3, cap // 2, cap - 2, cap - 1, cap} if v <= top)
+    out, k = [], 0
+    for cap in CAPSET:
+        data = [fresh() for _ in range(cap)]
+        rounds = 2 * cap + 3
+        every = max(1, rounds // 5)
+        for fill in corners(cap, cap):
+            start = corners(cap, cap - 1)[k % len(corners(cap, cap - 1))]
+            reads = [[("get", "idx")[(k + i) % 2], i] for i in corners(cap, cap) if i < fill or i == fill == 0]
+            ops = []
+            for r in range(rounds):
+                ops += [["push", fresh()]] if fill == cap else [["push", fresh()], ["pop"]]
+                if r % every == every - 1:
+                    ops += reads[(r // every) % 2::2] + [[("slices", "slicesmut", "len", "full")[(r // every) % 4]]]
+            ops += [["iter"], ["extend"] + [fresh() for _ in range(min(cap, 5) + 2)], ["slices"], ["drain", fill // 2],
+                    ["push", fresh()], ["iter"], ["drainlen"]]
+            out.append(build(dict(kind="B", store=k % 5, start=start, len=fill, data=data, ops=ops)))
+            k += 1
+        for first in corners(cap, cap - 1):
+            reads = [[("get", "idx")[(k + i) % 2], i] for i in sorted(set(corners(cap, cap) + [cap + 1, 2 * cap - 1, 2 * cap]))]
+            ops = []
+            for r in range(rounds):
+                ops.append(["push", fresh()])
+                if r % every == every - 1:
+                    ops += reads[(r // every) % 2::2] + [[("slices", "iter", "len", "slicesmut")[(r // every) % 4]]]
+            ops += [["iter"], ["iterloop", 2 * min(cap, 20) + 1], ["setfirst", (first + cap // 2) % cap], ["push", fresh()], ["iter"]]
+            out.append(build(dict(kind="F", store=k % 5, first=first, data=data, ops=ops)))
+            k += 1
+    return out
+
+
 def gen_cases(rng, tier):
     items = []
     counter = [100]
@@ -92,6 +136,9 @@ def gen_cases(rng, tier):
     def fresh():
         counter[0] += 1
         return counter[0]
+
+    # 0. every capacity of CAPSET, every (corner) fill level / first index, indices wrapping at least twice
+    items += capwrap_cases(fresh)
 
     # 1. exhaustive one/two-step from every raw state (valid and just-invalid) of capacities 0..CAP
     CAP = 6 if tier == "quick" else 8
@@ -172,7 +219,7 @@ def gen_cases(rng, tier):
     for k in range(n_rand):
         r = rng.fork(f"hist{k}")
         kind = "B" if r.chance(3, 5) else "F"
-        cap = r.choice([1, 1, 2, 2, 3, 3, 4, 5, 6, 7, 8, 9, 13, 16, 31, 64])
+        cap = r.choice([1, 1, 2, 2, 3, 3, 4, 5, 6, 7, 8, 9, 13, 16, 31, 64, 10, 12, 15, 17, 24, 33, 48, 100])
         if tier == "thorough" and r.chance(1, 20):
             cap = r.range(65, 300)
         data = [fresh() for _ in range(cap)]
